@@ -29,3 +29,22 @@ fn lmove_wrongtype_dest_must_not_touch_source() {
     assert!(matches!(reply, RespValue::Error(_)));
     assert_eq!(before, after, "error reply but src changed");
 }
+
+// Observation (not C17): MSETNX / MSET onto a key whose deadline has passed but which has not been purged yet
+#[test]
+fn msetnx_on_expired_key_observation() {
+    use redis_sim::simulator::VirtualTime;
+    let mut ex = CommandExecutor::new();
+    ex.set_time(VirtualTime::from_millis(1_000));
+    ex.execute(&Command::setex("k".to_string(), 1, SDS::from_str("old")));
+    ex.set_time(VirtualTime::from_millis(5_000));
+    let r = ex.execute(&Command::MSetNx(vec![("k".to_string(), SDS::from_str("new"))]));
+    let g = ex.execute(&Command::Get("k".to_string()));
+    eprintln!("MSETNX reply={:?}  GET k -> {:?}", r, g);
+    let mut ex = CommandExecutor::new();
+    ex.set_time(VirtualTime::from_millis(1_000));
+    ex.execute(&Command::setex("k".to_string(), 10, SDS::from_str("old")));
+    let r = ex.execute(&Command::MSet(vec![("k".to_string(), SDS::from_str("new"))]));
+    let t = ex.execute(&Command::Ttl("k".to_string()));
+    eprintln!("MSET reply={:?}  TTL k -> {:?}", r, t);
+}
